@@ -128,6 +128,13 @@ fn random_walks(r: &mut Report, n: usize, len: usize, seed: u64) {
             for (q, m) in reps.iter().enumerate() {
                 let want = den_keys(&known[q]); let got = state_keys(m);
                 r.case("map.keys_den", want == got, &|| format!("{} @r{}", desc, q), &|| format!("state {:?} want {:?}", got, want));
+                // C16: the verdict of validate_op on every op of the history: removes accepted; an update rejected exactly on a gap at
+                // the map clock or at the key's entry clock (the latter is known finding F16; MVReg values never reject)
+                for (j, op) in all.iter().enumerate() {
+                    let want_ok = match op { Op::Up { dot, key, .. } => dot.counter <= m.read_ctx().add_clock.get(&dot.actor) + 1 && dot.counter <= m.get(key).rm_clock.get(&dot.actor) + 1, Op::Rm { .. } => true };
+                    let gotv = m.validate_op(op);
+                    r.case("map.validate_op_verdict", gotv.is_ok() == want_ok, &|| format!("{} @r{} validate_op(op{})", desc, q, j), &|| format!("got {:?}, want ok = {}", gotv, want_ok));
+                }
             }
             if r.failures > 0 { return; }
         }
